@@ -320,6 +320,8 @@ pub fn gen_hist(o: &Opts, r: &mut Rng, k: u64, tier: &str) -> Vec<String> {
                 c.push(format!("W {} {} -", hex(&record(seq, r.range(1, 20))), tick(&mut clock, r)));
                 seq += 1;
             }
+            // (the external tool may have put a fresh, empty file at the path already — logrotate's `create`)
+            if r.chance(1, 3) { c.push(format!("EXTTOUCH {}", clock.now())); }
             c.push(format!("REOPEN {} -", tick(&mut clock, r)));
         } else if roll == 4 && o.ext && r.chance(1, 2) {
             // reset to another family in the same directory
@@ -745,6 +747,7 @@ fn gen_c18_via_logger(tier: &str, seed: u64) -> Vec<Vec<String>> {
                     c.push(if r.chance(3, 4) { "EXTREN".to_string() } else { "EXTRM".to_string() });
                     if r.chance(1, 4) { lw(&mut c, &mut r, &mut clock); }
                     clock.epoch += 1;
+                    if r.chance(1, 3) { c.push(format!("EXTTOUCH {}", clock.now())); }
                     c.push(format!("LREOPEN {}", clock.tick(&mut r)));
                     lw(&mut c, &mut r, &mut clock);
                     c.push("LFLUSH".into());
